@@ -202,6 +202,17 @@ func genC19History(t *rapid.T) c19History {
 		}
 		h.Inputs = append(h.Inputs, []byte(b.String()))
 	}
+	if rapid.IntRange(0, 2).Draw(t, "long") == 0 {
+		// one very long identifier (outputs beyond 1 KiB, 4 KiB) somewhere in the history
+		var b strings.Builder
+		target := rapid.SampledFrom([]int{600, 1100, 2100, 4200, 9000}).Draw(t, "longbytes")
+		for b.Len() < target {
+			b.WriteString(rapid.SampledFrom(c19Vocabulary).Draw(t, "longword"))
+			b.WriteString(rapid.SampledFrom([]string{"_", "", "-"}).Draw(t, "longjoiner"))
+		}
+		at := rapid.IntRange(0, len(h.Inputs)).Draw(t, "longat")
+		h.Inputs = append(h.Inputs[:at], append([][]byte{[]byte(b.String())}, h.Inputs[at:]...)...)
+	}
 	return h
 }
 
